@@ -145,7 +145,7 @@ Proof.
     rewrite I'. unfold zlen. rewrite mod_nat_Z by (cbn; lia). reflexivity.
   - rewrite (pre_cur _ _ _ _ _ P) in H by lia. replace (S i - 1)%nat with i in H by lia. rewrite Hx in H.
     destruct (last_changed s) as [l|] eqn:LC.
-    + destruct (list_eqb l match v with Some c => [c] | None => [x] end); injection H as <- <-; cbn; congruence.
+    + destruct (list_eqb l match v with Some c => c | None => [x] end); injection H as <- <-; cbn; congruence.
     + injection H as <- <-. reflexivity.
   - injection H as <- <-. rewrite (pre_d _ _ _ _ _ P). reflexivity.
   - injection H as <- <-. rewrite (pre_d _ _ _ _ _ P). reflexivity.
